@@ -406,16 +406,22 @@ def allIdentsKids : Kids → List (List Name × Bool × Option (List Name))
   | .cons _ n ks => allIdents n ++ allIdentsKids ks
 end
 
+/-- nodes that cannot hold a table reference or a sub-query -/
+def isAtom : Node → Bool
+  | .ident _ _ _ => true
+  | .leaf => true
+  | _ => false
+
 mutual
-/-- no child sits in a slot the walker skips -/
-def noSkip : Node → Bool
-  | .func _ ks => noSkipKids ks
-  | .scope _ ks => noSkipKids ks
-  | .plain ks => noSkipKids ks
+/-- whatever sits in a slot the walker skips is an atom (a name or a constant): CTE names, column lists, … -/
+def skipLeafOnly : Node → Bool
+  | .func _ ks => skipLeafOnlyKids ks
+  | .scope _ ks => skipLeafOnlyKids ks
+  | .plain ks => skipLeafOnlyKids ks
   | _ => true
-def noSkipKids : Kids → Bool
+def skipLeafOnlyKids : Kids → Bool
   | .nil => true
-  | .cons s n ks => s != .skip && noSkip n && noSkipKids ks
+  | .cons s n ks => (if s = .skip then isAtom n else skipLeafOnly n) && skipLeafOnlyKids ks
 end
 
 /-! ## `get_query_info` and the pushdown decision -/
